@@ -357,6 +357,8 @@ theorem cubicSolve_eq (a b c d : Cx ℝ) :
     cubicSolve a b c d =
       if cD0 a b c == 0 && cD1 a b c d == 0 then
         #[divT (-b) (nmul 3 a), divT (-b) (nmul 3 a), divT (-b) (nmul 3 a)]
+      else if cBase a b c d == 0 then
+        #[divT (-b) (nmul 3 a), divT (-b) (nmul 3 a), divT (-b) (nmul 3 a)]
       else
         #[divT (-(b + cK a b c d + divT (cD0 a b c) (cK a b c d))) (nmul 3 a),
           divT (-(b + cU * cK a b c d + divT (cD0 a b c) (cU * cK a b c d))) (nmul 3 a),
@@ -467,6 +469,12 @@ theorem cubic_factor (a b c d : Cx ℝ) (ha : toC a ≠ 0) :
   · rename_i hz
     rw [Bool.and_eq_true, beq_zero_iff, beq_zero_iff] at hz
     have hb0 := cBase_ne_zero a b c d hz
+    -- the guard `base == 0` of fix D12 is dead in exact arithmetic: outside the triple-root branch `base ≠ 0`
+    have hbne : (cBase a b c d == 0) = false := by
+      cases hbb : (cBase a b c d == 0)
+      · rfl
+      · exact absurd ((beq_zero_iff _).mp hbb) hb0
+    rw [if_neg (by rw [hbne]; exact Bool.false_ne_true)]
     obtain ⟨hk3, hk0⟩ := cK_cube a b c d hb0
     have hres := cBase_resolvent a b c d
     rw [toC_cD0, toC_cD1] at hres
